@@ -875,10 +875,10 @@ func (p *Parser) isComparisonOperator() bool {
 	return false
 }
 
-// isQuantifier checks if the current token is ANY or ALL using O(1) switch.
+// isQuantifier checks if the current token is ANY, SOME or ALL using O(1) switch.
 func (p *Parser) isQuantifier() bool {
 	switch p.currentToken.Type {
-	case models.TokenTypeAny, models.TokenTypeAll:
+	case models.TokenTypeAny, models.TokenTypeSome, models.TokenTypeAll:
 		return true
 	}
 	return false
